@@ -93,7 +93,7 @@ def first(n, tag):
     return None
 
 
-def build_survey(workbook: dict, form_name: str = "data", **kw):
+def build_survey(workbook: dict, form_name: str = "data", prefill: bool = True, **kw):
     """dict workbook -> real workbook_to_json -> real builder.  Returns (survey, warnings)."""
     from pyxform.builder import create_survey_element_from_dict
     from pyxform.xls2json import workbook_to_json
@@ -105,5 +105,6 @@ def build_survey(workbook: dict, form_name: str = "data", **kw):
     survey = create_survey_element_from_dict(js)
     from harness import shims
 
-    shims.s3_prefill_xpath(survey)  # symbolic mode only; no-op in concrete replay
+    if prefill:
+        shims.s3_prefill_xpath(survey)  # symbolic mode only; no-op in concrete replay
     return survey, warnings, js
